@@ -37,6 +37,10 @@ MODES = {
                                                                "restarts.max_npt_plus": 3})},
     "regression": {"npt": 5, "up": {"regression.num_extra_steps": 1}},
     "inv": {"prob": "inv"},
+    # a minimiser 1e12 away with rhobeg = 1e3: a streak of very successful steps multiplies delta by 4 each time until the cap
+    "far_minimiser": {"far": 1e12, "rhobeg": 1e3},
+    "far_minimiser_soft": {"far": 1e12, "rhobeg": 1e3, "up": cfgs.RESTART_MODES["soft"]},
+    "huge_x0": {"far": 0.0, "x0": [1e10, -3e10]},
 }
 LETTERS = ["x0.3", "tie", "x3", "x1e3"]
 _COLS = None
@@ -85,7 +89,8 @@ class DiagMonitor(solvex.Monitor):
         rho = df["rho"].to_numpy(dtype=float)
         delta = df["delta"].to_numpy(dtype=float)
         nruns = df["nruns"].to_numpy()
-        rhobeg, rhoend = cfg["rhobeg"], cfg["rhoend"]
+        rhobeg = cfg.get("rhobeg", 0.1 if cfg.get("scaling") else 0.1 * max(float(np.max(np.abs(cfg["x0"]))), 1.0))
+        rhoend = cfg.get("rhoend", 1e-8)
         scale = up.get("restarts.rhoend_scale", 1.0)
         for i in range(len(df)):
             if not (delta[i] >= rho[i] > 0):
@@ -172,6 +177,15 @@ def _mk(prob, mode, bounds, maxfun, salt):
     prob = m.get("prob", prob)
     npt = m.get("npt", cfgs.DIM[prob] + 1)
     cfg = cfgs.base_cfg(prob, salt, npt=npt, rhobeg=0.3, rhoend=0.01, maxfun=maxfun, memo=m.get("memo", True), tag_mode=mode)
+    if "far" in m:
+        cfg["prob"] = {"f": "lin", "A": [[1.0, 0.0], [0.0, 1.0], [0.0, 0.0]], "b": [m["far"], -0.5 * m["far"], 1.0 + 0.1 * salt], "salt": salt}
+        cfg["x0"] = list(m.get("x0", [0.0, 0.0]))
+        if "rhobeg" in m:
+            cfg["rhobeg"] = m["rhobeg"]
+        else:
+            cfg.pop("rhobeg")
+            cfg.pop("rhoend")
+        bounds = False
     if bounds and cfgs.DIM[prob] == 2:
         cfg.update(BOX)
     for k in ("nsamples", "noise_amp", "objfun_has_noise"):
@@ -199,7 +213,7 @@ def _configs(tier, salts):
                             depth, letters = 2, ["x0.3", "x3", "x1e3"]
                         out.append((cfg, {"depth": depth, "letters": letters}))
         if salt == 0 or tier == "thorough":
-            for name, cfg in cfgs.broad_cfgs(salt=salt, budgets=(12, 40, 90), extra_up=DIAG, reg_budgets=(8,)):
+            for name, cfg in cfgs.broad_cfgs(salt=salt, budgets=(12, 40, 90), extra_up=DIAG, reg_budgets=(8,), overlays=("avg", "soft")):
                 depth = 1 if (tier == "thorough" and cfg.get("memo", True) and cfg["maxfun"] == 40 and "reg" not in cfg["broad_flags"]) else 0
                 out.append((dict(cfg, tag_mode=cfg["tag_mode"]), {"depth": depth, "letters": ["x0.3", "x3", "x1e3"]}))
     return out
